@@ -79,6 +79,12 @@ FLAVOURS = {
              "-DCMAKE_CXX_FLAGS=-O1 -g -fsanitize=address,bounds,signed-integer-overflow,integer-divide-by-zero,null,pointer-overflow,vla-bound,return,unreachable -fno-sanitize-recover=all -fno-omit-frame-pointer -D_GLIBCXX_ASSERTIONS",
              "-DCMAKE_C_FLAGS=-O1 -g -fsanitize=address",
              "-DCMAKE_EXE_LINKER_FLAGS=-fsanitize=address,undefined"],
+    # AddressSanitizer alone (the "asan" flavour also aborts on UBSan's signed-shift report in
+    # preprocess/base64.cc, which is C09's modelled 32-bit wrap, before b64filter does anything)
+    "asan_only": ["-DCMAKE_BUILD_TYPE=RelWithDebInfo",
+                  "-DCMAKE_CXX_FLAGS=-O1 -g -fsanitize=address -fno-omit-frame-pointer",
+                  "-DCMAKE_C_FLAGS=-O1 -g -fsanitize=address",
+                  "-DCMAKE_EXE_LINKER_FLAGS=-fsanitize=address"],
     "tsan": ["-DCMAKE_BUILD_TYPE=RelWithDebInfo",
              "-DCMAKE_CXX_FLAGS=-O1 -g -fsanitize=thread",
              "-DCMAKE_EXE_LINKER_FLAGS=-fsanitize=thread"],
